@@ -4,4 +4,4 @@ From Coq Require Import ExtrOcamlBasic.
 From C17 Require Import Modules.
 (* coqc runs with /verif/coq as working directory (Makefile and vlib alike); ocaml/gen is created by vlib.coq_make
    and is git-ignored; ocaml/C17/build.sh copies the result into ocaml/C17/_build *)
-Extraction "../ocaml/gen/c17_model.ml" run_ops default_fuel gs0 mkMod getm mkCfg cfg0.
+Extraction "../ocaml/gen/c17_model.ml" run_ops run_op load link evaluate run_jobs promise_state default_fuel gs0 mkMod getm mkCfg cfg0.
